@@ -37,6 +37,7 @@ type Flags struct {
 	GlobalWrites                   bool // functions may assign outer variables
 	GlobalReads                    bool // functions may read outer (lower-case) variables
 	Redefine                       bool // functions may be redefined (C04-sensitive)
+	RedefineLeafOnly               bool // ... but only functions no other function calls (a cached caller of a redefined callee is a recorded C04 finding)
 	SameTextClosures               bool // closures with equal text capturing constants/functions (C04-sensitive)
 	Lambdas                        bool
 	Comments                       bool
@@ -47,6 +48,7 @@ type Flags struct {
 	DeepLoops                      bool // loop nesting up to 6 instead of 3
 	Shadow                         bool // loop variables / params reuse outer names
 	BigInts                        bool
+	NoIndexAssign                  bool // no xs[i]=v / m.k=v / del(m.k): in-place mutation of large containers is a recorded C06 finding
 }
 
 // SwarmFlags draws a per-run feature subset.
@@ -457,6 +459,12 @@ func (g *G) Expr(t Ty, d int) string {
 			return g.lit(TStr)
 		}
 	case TFloat:
+		if g.F.NonDet && r.Bool(.2) {
+			if g.inFunc != nil {
+				g.inFunc.NonDet = true
+			}
+			return "time.now()"
+		}
 		switch r.Intn(4) {
 		case 0, 1:
 			return "(" + g.Expr(TFloat, d+1) + " " + core.Pick(r, []string{"+", "-", "*", "/"}) + " " + g.Expr(TFloat, d+1) + ")"
@@ -591,6 +599,9 @@ func (g *G) incdec() string {
 }
 
 func (g *G) indexAssign() string {
+	if g.F.NoIndexAssign {
+		return g.assign()
+	}
 	if g.F.Maps && g.R.Bool(.5) {
 		if ws := g.visible(TMap, true); len(ws) > 0 {
 			v := core.Pick(g.R, ws)
@@ -851,7 +862,7 @@ func (g *G) FuncDef() string {
 	if g.F.Redefine && len(g.Funcs) > 0 && r.Bool(.35) {
 		// redefinition keeps name, parameters, return type and level (call graph stays acyclic)
 		old := core.Pick(r, g.Funcs)
-		if !old.IsVar && !old.Recursive {
+		if !old.IsVar && !old.Recursive && !(g.F.RedefineLeafOnly && g.hasCaller(old.Name)) {
 			nf := &Func{Name: old.Name, Params: old.Params, Ret: old.Ret, Level: old.Level, Variadic: old.Variadic}
 			src := "func " + nf.Name + "(" + paramList(nf) + ") { " + g.body(nf) + " }"
 			nf.Prints, nf.ReadsGlobals, nf.WritesGlobals, nf.NonDet = nf.Prints || old.Prints, nf.ReadsGlobals || old.ReadsGlobals, nf.WritesGlobals || old.WritesGlobals, nf.NonDet || old.NonDet
@@ -930,6 +941,17 @@ func (g *G) closureDef(f *Func) string {
 		src += fmt.Sprintf("; %s = %s(%s)", name2, mk, wrapNeg(g.IntLit()))
 	}
 	return src
+}
+
+func (g *G) hasCaller(name string) bool {
+	for _, f := range g.Funcs {
+		for _, c := range f.Calls {
+			if c == name {
+				return true
+			}
+		}
+	}
+	return false
 }
 
 // propagate recomputes transitive effects after a redefinition (conservative: effects only grow).
